@@ -6,6 +6,7 @@ import (
 	"encoding/binary"
 	"fmt"
 	"testing"
+	"time"
 
 	"github.com/cloudflare/pat-go/quicwire"
 	"pgregory.net/rapid"
@@ -373,6 +374,37 @@ func TestFixedInts(t *testing.T) {
 		}
 		s.Sample(func() any { return rt.Hex(b) })
 	})
+}
+
+// TestOutOfRangeThenContinue: a value above 2^62-1 is refused with the documented panic; a caller that recovers
+// must find the package fully usable afterwards (no lock left held, no state left behind).
+func TestOutOfRangeThenContinue(t *testing.T) {
+	s := rt.S("out-of-range-then-continue").SetRule("AppendVarint / SizeVarint / AppendVarintBytes-like calls with a value above 2^62-1 (documented panic, recovered), followed by ordinary encode/decode calls which must return (20 s wall-clock guard against a deadlock - the calls take nanoseconds) and be correct; non-trivial = every (bad value, following value) pair; distinct by construction")
+	bad := []uint64{1 << 62, 1<<62 + 1, 1<<63 - 1, 1 << 63, 1<<64 - 1}
+	for _, bv := range bad {
+		for _, v := range boundaries() {
+			for _, f := range []func(){func() { quicwire.AppendVarint(nil, bv) }, func() { quicwire.SizeVarint(bv) }} {
+				func() {
+					defer func() { _ = recover() }()
+					f()
+				}()
+			}
+			done := make(chan error, 1)
+			go func() { done <- checkValue(v, []byte{9}, make([]byte, 0, 16)) }()
+			s.Eval()
+			s.NontrivialEnum(1)
+			select {
+			case err := <-done:
+				if err != nil {
+					rt.Report(t, "C19/after-out-of-range", "", nil, "after a recovered out-of-range call: %v", err)
+				}
+			case <-time.After(20 * time.Second):
+				rt.Report(t, "C19/after-out-of-range-blocks", "", nil, "after AppendVarint(%d) panicked (recovered), AppendVarint/ConsumeVarint of %d did not return within 20 s", bv, v)
+				return
+			}
+		}
+	}
+	s.Sample(func() any { return map[string]any{"bad_values": bad} })
 }
 
 // FuzzVarint: coverage-guided differential against the model (thorough tier).
